@@ -465,6 +465,31 @@ func (e *c15Env) absurdTx() *types.Transaction {
 
 func (e *c15Env) absurdBlock() *types.Block {
 	c := e.c
+	if c.Draw("blk2", 6) == 5 {
+		// the attacker's valid sample block with one absurd field, consistently signed by its rightful (malicious) miner
+		b := e.wire(3)
+		h := b.Header
+		what := ""
+		switch c.Draw("blk2", 3) {
+		case 0:
+			h.Time = []uint32{0, 1, 9999999, 10000000}[c.Draw("blk2", 4)]
+			what = "tiny-timestamp"
+		case 1:
+			h.Time = e.blks[2].Time() - uint32(1+c.Draw("blk2", 5))
+			what = "timestamp-before-parent"
+		default:
+			h.GasLimit = []uint64{0, 1, 20999}[c.Draw("blk2", 3)]
+			what = "tiny-gas-limit"
+		}
+		if d := e.net.DeputyByMiner(e.blks[3].MinerAddress()); d != nil {
+			hash := h.Hash()
+			if sig, err := crypto.Sign(hash[:], d.Node.Key); err == nil {
+				h.SignData = sig
+				c.Fault("deputy-signed-block-with-" + what)
+			}
+		}
+		return b
+	}
 	baseIdx := 1 + c.Draw("blk", 4)
 	b := e.wire(baseIdx)
 	h := b.Header
@@ -974,6 +999,29 @@ func (e *c15Env) attack(k int) {
 			e.logf("no protocol handshake")
 		}
 		e.pause()
+		if c.Draw("flood", 120) == 119 && !cli.PeerGone() {
+			// many small, individually harmless messages: confirmations for blocks the node does not know, each
+			// for another height, enough to push every bounded cache of the node over its limit (about 1 MB in all)
+			n := 10241 + c.Draw("flood", 300)
+			c.Fault("flood-confirms-for-unknown-blocks-of-distinct-heights")
+			c.W.S.GrantSteps(5_000_000)
+			e.cur = "msg-0x09-flood"
+			var first []byte
+			for i := 0; i < n && !e.panicked() && !cli.PeerGone(); i++ {
+				h := crypto.Keccak256Hash(be32(uint32(i)))
+				fr := wc.frame(0x09, mustRlp(&network.BlockConfirmData{Hash: h, Height: uint32(1000 + i), SignInfo: e.conf[2][0]}))
+				if i == 0 {
+					first = fr
+				}
+				cli.inject(fr)
+				e.sentTotal += int64(len(fr))
+				if i%512 == 511 {
+					e.settle()
+				}
+			}
+			e.logf("flood: %d confirmation messages for unknown blocks of heights 1000..%d (%d bytes each, first %x...)", n, 1000+n-1, len(first), first[:16])
+			e.settle()
+		}
 		nFrames := 1 + c.Draw("gen", 10)
 		e.deep = c.Draw("gen", 3) != 0
 		defer func() { e.deep = false }()
@@ -1162,7 +1210,7 @@ func (e *c15Env) probe() {
 		}
 	}
 	if nn.StateLocked {
-		c.Fail("C15/liveness/node-state-locked", "after the attack the node's chain head / peer set / caches cannot be read any more: a node task holds one of their locks and never releases it (deadlock)\n%s", e.trace())
+		c.Fail("C15/liveness/node-state-locked", "after the attack the node's chain head / peer set / caches cannot be read any more: a node task holds one of their locks and never releases it (deadlock)\n%s\nnode goroutines at that moment:\n%s", e.trace(), repoStacks(30))
 		return
 	}
 	curH := uint32(0)
@@ -1177,6 +1225,37 @@ func (e *c15Env) probe() {
 	default:
 		c.Fail("C15/liveness/block-not-accepted", "after the attack the valid blocks 3 and 4 pushed by an honest peer were not on the node's chain after 60 simulated seconds (current height %d)\n%s", curH, e.trace())
 	}
+}
+
+// repoStacks dumps the goroutines that are inside lemochain-core code (frames only, at most n goroutines).
+func repoStacks(n int) string {
+	buf := make([]byte, 4<<20)
+	buf = buf[:runtime.Stack(buf, true)]
+	var out []string
+	for _, g := range strings.Split(string(buf), "\n\n") {
+		if !strings.Contains(g, "lemochain-core/") {
+			continue
+		}
+		var keep []string
+		lines := strings.Split(g, "\n")
+		keep = append(keep, lines[0])
+		for _, l := range lines[1:] {
+			if strings.HasPrefix(l, "github.com/LemoFoundationLtd/") || strings.HasPrefix(l, "verif/simrt.(*Mutex)") || strings.HasPrefix(l, "verif/simrt.(*RWMutex)") {
+				if i := strings.LastIndex(l, "("); i > 0 {
+					l = l[:i]
+				}
+				keep = append(keep, "    "+strings.TrimPrefix(l, "github.com/LemoFoundationLtd/lemochain-core/"))
+			}
+		}
+		if len(keep) > 14 {
+			keep = keep[:14]
+		}
+		out = append(out, strings.Join(keep, "\n"))
+		if len(out) >= n {
+			break
+		}
+	}
+	return strings.Join(out, "\n")
 }
 
 // minerBlacklisted reports whether the node currently refuses blocks of the probe blocks'
@@ -1322,7 +1401,7 @@ func (e *c15Env) shutdown() {
 const c15MaxSteps = 1_500_000
 
 func c15SimConfig(c *Ctx) simrt.Config {
-	return simrt.Config{Policy: simrt.PolicyCoarse, MaxSteps: c15MaxSteps}
+	return simrt.Config{Policy: simrt.PolicyCoarse, MaxSteps: c15MaxSteps, SpinSleep: time.Millisecond} // SpinSleep: subscribe.send polls a full channel in a busy loop; the fake clock must still advance (write deadlines)
 }
 
 func sortedKeys(m map[string]int64) []string {
